@@ -4,7 +4,7 @@ CONSTANTS
  MaxBytes = 5
  RandMax = 1024
  ShaMax = 400
- B64Alpha = {65, 47, 61, 32, 10, 33}
+ B64Alpha = {65, 47, 61, 32, 33}
  MaxB64 = 8
  HexAlpha = {48, 57, 97, 70, 103, 32}
  MaxHex = 7
